@@ -137,7 +137,7 @@ func unquoteString(b []byte) ([]byte, int) {
 	var err error
 	var ch rune
 	for {
-		if str == "" {
+		if str == "" || str[0] == '\r' || str[0] == '\n' {
 			break
 		}
 		ch, _, tail, err = strconv.UnquoteChar(str, '"')
